@@ -60,7 +60,7 @@ Proof.
     unfold m8f16_body at 1. rewrite m8f16_loop_S. replace (i <? i + Z.of_nat (length s)) with true by lia.
     cbn [b2z z2b Z.eqb negb].
     destruct (extract_utf16 s) as [[ch rest]| | |]; cbn [ext_ok] in X; try contradiction.
-    destruct X as (k & Hk & Er & Ex & Hch). rewrite Ex. cbn [bind]. cbv zeta.
+    destruct X as (k & Hk & Er & Ex & Hch & _). rewrite Ex. cbn [bind]. cbv zeta.
     pose proof (utf8_measure_le4 ch) as Hm.
     rewrite utf8_measure_matches_source by (change (2 ^ 32)%N with 4294967296%N; lia).
     rewrite (Utf.LeafBridge.wrapu64_small (Z.of_nat acc)) by (change (2 ^ 64) with 18446744073709551616; lia).
@@ -114,7 +114,7 @@ Proof.
     unfold m16f8_body at 1. rewrite m16f8_loop_S. replace (i <? i + Z.of_nat (length s)) with true by lia.
     cbn [b2z z2b Z.eqb negb].
     destruct (extract_utf8 s) as [[ch rest]| | |]; cbn [ext_ok] in X; try contradiction.
-    destruct X as (k & Hk & Er & Ex & Hch). rewrite Ex. cbn [bind]. cbv zeta.
+    destruct X as (k & Hk & Er & Ex & Hch & _). rewrite Ex. cbn [bind]. cbv zeta.
     pose proof (utf16_measure_le4 ch) as Hm.
     rewrite utf16_measure_matches_source by (change (2 ^ 32)%N with 4294967296%N; lia).
     rewrite (Utf.LeafBridge.wrapu64_small (Z.of_nat acc)) by (change (2 ^ 64) with 18446744073709551616; lia).
@@ -168,7 +168,7 @@ Proof.
     unfold m32f8_body at 1. rewrite m32f8_loop_S. replace (i <? i + Z.of_nat (length s)) with true by lia.
     cbn [b2z z2b Z.eqb negb].
     destruct (extract_utf8 s) as [[ch rest]| | |]; cbn [ext_ok] in X; try contradiction.
-    destruct X as (k & Hk & Er & Ex & Hch). rewrite Ex. cbn [bind]. cbv zeta.
+    destruct X as (k & Hk & Er & Ex & Hch & _). rewrite Ex. cbn [bind]. cbv zeta.
     rewrite (Utf.LeafBridge.wrapu64_small (Z.of_nat acc + 1)) by (change (2 ^ 64) with 18446744073709551616; lia).
     replace (Z.of_nat acc + 1) with (Z.of_nat (S acc)) by lia.
     replace (i + Z.of_nat (length s)) with (i + Z.of_nat k + Z.of_nat (length rest)) by (rewrite Er, skipn_length; lia).
@@ -219,7 +219,7 @@ Proof.
     unfold m32f16_body at 1. rewrite m32f16_loop_S. replace (i <? i + Z.of_nat (length s)) with true by lia.
     cbn [b2z z2b Z.eqb negb].
     destruct (extract_utf16 s) as [[ch rest]| | |]; cbn [ext_ok] in X; try contradiction.
-    destruct X as (k & Hk & Er & Ex & Hch). rewrite Ex. cbn [bind]. cbv zeta.
+    destruct X as (k & Hk & Er & Ex & Hch & _). rewrite Ex. cbn [bind]. cbv zeta.
     rewrite (Utf.LeafBridge.wrapu64_small (Z.of_nat acc + 1)) by (change (2 ^ 64) with 18446744073709551616; lia).
     replace (Z.of_nat acc + 1) with (Z.of_nat (S acc)) by lia.
     replace (i + Z.of_nat (length s)) with (i + Z.of_nat k + Z.of_nat (length rest)) by (rewrite Er, skipn_length; lia).
